@@ -608,6 +608,16 @@ func (e *Evaluator) evalBinaryExpr(expr *ExprBinary) (*Cell, error) {
 
 	switch expr.OpToken.Tag {
 	case LSquare, Dot:
+		if left.Value.Tag == ValueNativeFn && left.Value.ParentObj != nil && left.Value.Str != nil && left.Value.ParentObj.Tag == ValueObj {
+			// a method name that is not a member of the object it was looked up
+			// on: further members hang off the missing member, as they do for
+			// any other missing name (o.length.x = 1 creates o.length)
+			missing := NewValue(nil)
+			missing.Str = left.Value.Str
+			missing.ParentObj = left.Value.ParentObj
+			left = NewCell(missing)
+		}
+
 		if left.Value.Tag == ValueUnknown {
 			if right.Value.Tag == ValueNum {
 				// if it's unknown and the rhs is a number, make it an array
